@@ -67,9 +67,18 @@ func main() {
 		if err != nil {
 			fatal(err)
 		}
-		for _, l := range strings.Fields(string(b)) {
-			want[l] = true
+		byID := map[string]mutant{}
+		for _, m := range muts {
+			byID[m.ID] = m
 		}
+		var ordered []mutant
+		for _, l := range strings.Fields(string(b)) {
+			if m, ok := byID[l]; ok && !want[l] {
+				want[l] = true
+				ordered = append(ordered, m)
+			}
+		}
+		muts = ordered // the ids file gives the order
 	}
 	done := map[string]bool{}
 	if f, err := os.Open(*out); err == nil {
